@@ -258,6 +258,81 @@ theorem expandcanonicalSrc_value {σ : K} (R : RF K) (env : Env K) (h : DelayOK 
     ∃ e, expandcanonicalSrc σ true "A" R = some e ∧ e.eval env = R.value env :=
   ⟨_, rfl, expandcanonical_value_gen R env h hE0⟩
 
+/-! ### `canonical` with its unit-factor branches -/
+
+theorem eval_of_polyIsConst_one {p : List K} (h : polyIsConst p 1 = true) (x : K) : Poly.eval p x = 1 := by
+  have ht : trim p = [1] := by
+    simpa [polyIsConst, intK] using h
+  rw [← eval_trim, ht]; simp
+
+theorem eqConst_one (g : K) : eqConst g 1 = decide (g = 1) := by simp [eqConst, intK]
+
+theorem canonicalBr_fc_value {σ : K} (R : RF K) (env : Env K) (h : DelayOK σ R) (hE0 : env.E 0 = 1)
+    (hA : Poly.eval R.A env.x ≠ 0) :
+    (canonicalBr σ true [1, 1, -99] "top" R).eval env = R.value env := by
+  have hlc := lc_ne_zero_of_eval hA
+  have hBv : Poly.eval R.B env.x / lc R.B * (lc R.B / lc R.A) = Poly.eval R.B env.x / lc R.A := by
+    by_cases hB : lc R.B = 0
+    · simp [hB, eval_of_lc_zero hB]
+    · field_simp
+  obtain ⟨core, hcd⟩ : ∃ core : RExpr K, core = (if polyIsConst (monic R.A) 1 then RExpr.poly (monic R.B)
+        else RExpr.mul (.poly (monic R.B)) (.inv (.poly (monic R.A)))) := ⟨_, rfl⟩
+  have hcore : core.eval env = Poly.eval R.B env.x / lc R.B / (Poly.eval R.A env.x / lc R.A) := by
+    rw [hcd]
+    split
+    · rename_i hD
+      have := eval_of_polyIsConst_one hD env.x
+      rw [eval_monic] at this
+      simp only [RExpr.eval, eval_monic, this]; simp
+    · simp only [RExpr.eval, eval_monic]; ring
+  have hu : canonicalBr σ true [1, 1, -99] "top" R =
+      .mul (if (decide (R.delay = 0) && eqConst (lc R.B / lc R.A) 1) = true then core
+            else .mul (.mul (.const (lc R.B / lc R.A)) (delayFactor σ R)) core) (undefFactor R) := by
+    rw [hcd]; rfl
+  rw [hu]
+  simp only [RExpr.eval, eval_undefFactor, RF.value]
+  by_cases hk : (decide (R.delay = 0) && eqConst (lc R.B / lc R.A) 1) = true
+  · rw [if_pos hk, hcore]
+    rw [eqConst_one] at hk
+    have hk' : R.delay = 0 ∧ lc R.B / lc R.A = 1 := by simpa using hk
+    rw [hk'.1]
+    simp only [neg_zero, zero_mul, hE0, mul_one]
+    have : Poly.eval R.B env.x / lc R.B = Poly.eval R.B env.x / lc R.A := by rw [← hBv, hk'.2, mul_one]
+    rw [this]; field_simp
+  · rw [if_neg hk]
+    simp only [RExpr.eval, hcore, eval_delayFactor h env hE0]
+    have e2 : lc R.B / lc R.A * env.E (-R.delay * env.x) * (Poly.eval R.B env.x / lc R.B / (Poly.eval R.A env.x / lc R.A)) =
+        (Poly.eval R.B env.x / lc R.B * (lc R.B / lc R.A)) / (Poly.eval R.A env.x / lc R.A) * env.E (-R.delay * env.x) := by ring
+    rw [e2, hBv]; field_simp
+
+theorem canonicalBr_value {σ : K} (R : RF K) (env : Env K) (h : DelayOK σ R) (hE0 : env.E 0 = 1)
+    (hA : Poly.eval R.A env.x ≠ 0) :
+    (canonicalBr σ false [-99, 1, 1] "top" R).eval env = R.value env := by
+  have hlc := lc_ne_zero_of_eval hA
+  obtain ⟨core, hcd⟩ : ∃ core : RExpr K, core = (if polyIsConst (monic R.A) 1 then RExpr.poly (smul (1 / lc R.A) R.B)
+        else if polyIsConst (smul (1 / lc R.A) R.B) 1 then RExpr.inv (.poly (monic R.A))
+        else RExpr.mul (.poly (smul (1 / lc R.A) R.B)) (.inv (.poly (monic R.A)))) := ⟨_, rfl⟩
+  have hcore : core.eval env = Poly.eval R.B env.x / Poly.eval R.A env.x := by
+    rw [hcd]
+    split
+    · rename_i hD
+      have := eval_of_polyIsConst_one hD env.x
+      rw [eval_monic] at this
+      have hAe : Poly.eval R.A env.x = lc R.A := by field_simp at this; exact this
+      simp only [RExpr.eval, eval_smul, hAe]; field_simp
+    · split
+      · rename_i hN
+        have := eval_of_polyIsConst_one hN env.x
+        rw [eval_smul] at this
+        have hBe : Poly.eval R.B env.x = lc R.A := by field_simp at this; exact this
+        simp only [RExpr.eval, eval_monic, hBe]; field_simp
+      · simp only [RExpr.eval, eval_monic, eval_smul]; field_simp
+  have hu : canonicalBr σ false [-99, 1, 1] "top" R = .mul (.mul core (delayFactor σ R)) (undefFactor R) := by
+    rw [hcd]; rfl
+  rw [hu]
+  simp only [RExpr.eval, eval_undefFactor, RF.value, eval_delayFactor h env hE0]
+  rw [hcore]
+
 /-! ### the simplify loops -/
 
 theorem eval_foldl_mul (l : List (RExpr K)) (f0 : RExpr K) (env : Env K) :
